@@ -205,10 +205,11 @@ func runC13(r *mc.Run) {
 	cfgs := c13Configs(r.Thorough())
 	r.Bounds["configs"] = len(cfgs)
 	for _, c := range cfgs {
-		e := &engb.Explorer{Run: r, NewRoot: c.newRoot, Menu: c13Menu(c, r.Thorough()), Monitor: c13Monitor(r, c), Depth: depth}
+		e := &engb.Explorer{Run: r, NewRoot: c.newRoot, Menu: c13Menu(c, r.Thorough()), Monitor: c13Monitor(r, c), Depth: depth, ConformanceDepth: 2}
 		if err := e.Explore(); err != nil {
 			panic(err)
 		}
+		runConformance(r, c, e)
 		r.Sample(map[string]any{"config": c, "example_block_menu_size": len(c13Menu(c, r.Thorough())(nil, nil, 0))})
 	}
 }
